@@ -20,6 +20,19 @@ if         { return 2; }
 "12"x      { return 8; }
 %%
 ''',
+ 'contaction': r'''
+%%
+[0-9]+     |
+[a-f]+     { return 1; }
+12         |
+xyz        { return 2; }
+zz         |
+z+         { return 3; }
+q          |
+zzz        { return 4; }
+r          { return 5; }
+%%
+''',
  'clean': r'''
 %%
 if|else    { return 1; }
